@@ -252,3 +252,26 @@ Theorem v1_flat_refuted :
   /\ v1_addl_flat [None; Some "int"] = Some (Some "int")
   /\ v1_addl [Some "int"; None; Some "string"] = None /\ v1_addl_flat [Some "int"; None; Some "string"] = Some (Some "string").
 Proof. vm_compute. repeat split; reflexivity. Qed.
+
+(** * the alternatives (oneOf / anyOf) of the members *)
+Lemma alts_fold_app : forall (ms : list (list string)) acc,
+  fold_left (fun a m => (a ++ m)%list) ms acc = (acc ++ List.concat ms)%list.
+Proof.
+  induction ms as [|m ms IH]; intro acc; cbn [fold_left List.concat]; [rewrite app_nil_r; reflexivity|].
+  rewrite IH. rewrite app_assoc. reflexivity.
+Qed.
+
+Theorem alts_merge_is_concat ms : alts_merge ms = List.concat ms.
+Proof. unfold alts_merge. rewrite alts_fold_app. reflexivity. Qed.
+
+(** every alternative of every member is an alternative of the merged type, wherever the member stands *)
+Theorem alts_merge_keeps_all ms m x : In m ms -> In x m -> In x (alts_merge ms).
+Proof. intros Hm Hx. rewrite alts_merge_is_concat. apply in_concat. exists m. split; assumption. Qed.
+
+Theorem alts_merge_invents_nothing ms x : In x (alts_merge ms) -> exists m, In m ms /\ In x m.
+Proof. rewrite alts_merge_is_concat. intro H. apply in_concat in H. exact H. Qed.
+
+Theorem alts_merge_dropping_refuted :
+  alts_merge [["Cat"; "Dog"]; []] = ["Cat"; "Dog"] /\ alts_merge_dropping [["Cat"; "Dog"]; []] = []
+  /\ alts_merge_dropping [[]; ["Cat"; "Dog"]] = ["Cat"; "Dog"].
+Proof. vm_compute. repeat split; reflexivity. Qed.
